@@ -19,6 +19,10 @@ static unsigned char* g_mon_data = 0; static unsigned char* g_mon_old = 0; stati
 #ifdef MON_HOOK
 static void MON_HOOK(void);
 #endif
+/* optional: called at release, before the mutex is given up (snapshot of the protected state as other threads will see it) */
+#ifdef MON_UNLOCK_HOOK
+static void MON_UNLOCK_HOOK(void);
+#endif
 int pthread_mutex_lock(pthread_mutex_t* m) {
     (void)m;
     OBL(!g_mutex_held, "mutex is not acquired while already held (no self-deadlock)");
@@ -38,6 +42,9 @@ int pthread_mutex_lock(pthread_mutex_t* m) {
 int pthread_mutex_unlock(pthread_mutex_t* m) {
     (void)m;
     OBL(g_mutex_held, "mutex is released only while held");
+#ifdef MON_UNLOCK_HOOK
+    MON_UNLOCK_HOOK();
+#endif
     g_mutex_held = 0;
     return 0;
 }
